@@ -341,6 +341,35 @@ class DocSim(core.Engine):
                     return [Violation('C20', 'hash_consistency', step, f'equal tokens {o!r} and {t!r} hash differently')]
                 if o is not t and not (o == t and t == o):
                     return [Violation('C20', 'token_equality', step, f'tokens with the same rule and text compare unequal: {o!r} {t!r}')]
+        if step % 3 == 0:
+            # two nodes of one document (one store): equal exactly when they print alike and are built alike
+            pairs = 0
+            for _, rep in W.iter_nodes(root):
+                if not isinstance(rep, I.Repeated) or pairs >= 10:
+                    continue
+                items = [x for x in rep.items if isinstance(x, models.RawTreeModel)]
+                for a, b in zip(items, items[1:]):
+                    if type(a) is not type(b) or pairs >= 10:
+                        continue
+                    pairs += 1
+                    try:
+                        ab, ba = (a == b), (b == a)
+                    except Exception as e:
+                        return [Violation('C20', 'eq_raises', step, f'== between two {type(a).__name__} items raised {type(e).__name__}: {e}')]
+                    alike = print_model(a) == print_model(b) and W.struct_fp(a) == W.struct_fp(b)
+                    if getattr(a, 'indent_by', None) != getattr(b, 'indent_by', None):
+                        continue
+                    sess.stats['eq:sibling_pairs'] += 1
+                    if alike:
+                        sess.stats['eq:sibling_pairs_alike'] += 1
+                    if ab != ba:
+                        return [Violation('C20', 'symmetry', step, f'two sibling {type(a).__name__} items: a == b is {ab}, b == a is {ba}')]
+                    if ab and not alike:
+                        return [Violation('C20', 'unequal_expected', step,
+                                          f'sibling {type(a).__name__} items {print_model(a)!r} and {print_model(b)!r} compare equal')]
+                    if alike and not ab:
+                        return [Violation('C20', 'equal_expected', step,
+                                          f'sibling {type(a).__name__} items with the same text {print_model(a)!r} and structure compare unequal')]
         same_text = print_model(root) == print_model(S)
         same_struct = W.struct_fp(root) == W.struct_fp(S)
         if same_text and same_struct:
